@@ -56,6 +56,8 @@ def gen_problem(rng, families=("lin", "quad", "trig", "pole", "incons", "rankdef
     tars = [float(v) for v in f(np.array(xs))]
     if kind == "incons":
         tars = [t + rng.uniform(0.5, 2.0) * (1 if i % 2 else -1) for i, t in enumerate(tars)] if m > n else tars
+    if kind == "bowl":
+        tars = [t if rng.random() < 0.5 else rng.uniform(-1.0, 0.5) for t in tars]      # some unreachable
     x0 = [rng.uniform(-1, 1) for _ in range(n)]
     if hard_limits:
         # the unconstrained solution lies outside the limits or far away
@@ -92,6 +94,9 @@ def make_f(spec):
         return lambda x: A @ np.asarray(x, float) + 0.3 * (A @ np.asarray(x, float)) ** 2
     if kind == "trig":
         return lambda x: np.sin(A @ np.asarray(x, float)) + A @ np.asarray(x, float)
+    if kind == "bowl":
+        # non-negative parabolas: targets below the minimum are unreachable, Newton steps near the bottom overshoot
+        return lambda x: (A @ np.asarray(x, float)) ** 2 + 1.0
     if kind == "pole":
         def f(x):
             z = A @ np.asarray(x, float)
